@@ -316,6 +316,18 @@ func errClass(err error) string {
 	}
 }
 
+// writeScratch writes p the way io.Copy or a scratch-buffer loop does: from a buffer the caller refills as soon as Write
+// has returned (io.Writer: "Write must not retain p").  A writer that keeps the slice sees garbage instead of the content.
+func writeScratch(w io.Writer, p []byte) (int, error) {
+	b := make([]byte, len(p))
+	copy(b, p)
+	n, err := w.Write(b)
+	for i := range b {
+		b[i] = 0xEE
+	}
+	return n, err
+}
+
 type chunkReader struct {
 	b     []byte
 	chunk int
@@ -491,14 +503,14 @@ func (e *histEnv) step(t []string) (res string) {
 					if n > len(rest) {
 						n = len(rest)
 					}
-					if _, err = f.Write(rest[:n]); err != nil && werr == nil {
+					if _, err = writeScratch(f, rest[:n]); err != nil && werr == nil {
 						werr = err
 					}
 					rest = rest[n:]
 				}
 			}
 			if len(rest) > 0 {
-				if _, err = f.Write(rest); err != nil && werr == nil {
+				if _, err = writeScratch(f, rest); err != nil && werr == nil {
 					werr = err
 				}
 			}
